@@ -329,8 +329,16 @@ inline void yield_point(const char *site, unsigned long v = 0) { if(g_world) g_w
 
 // strong definition of the library hook for scheduled engines
 #ifdef VERIF_SCHED_HOOK
+namespace sched { inline uint64_t g_unscheduled_spins = 0; /* reset by the driver before each operation */ inline uint64_t g_unscheduled_spin_budget = 200000; }
 extern "C" void frg_verif_point(const char *site, const void *obj, unsigned long v) {
 	verif::g_hook_hits++;
-	if(sched::g_world && sched::t_me >= 0) sched::g_world->point(site, obj, v, site[0] == 's' && site[1] == 'p' && site[2] == 'i' && site[3] == 'n' && site[4] == ':');
+	bool spin = site[0] == 's' && site[1] == 'p' && site[2] == 'i' && site[3] == 'n' && site[4] == ':';
+	if(sched::g_world && sched::t_me >= 0) { sched::g_world->point(site, obj, v, spin); return; }
+	// single-threaded engine: a wait loop that keeps spinning can never be satisfied by anybody else
+	if(spin && ++sched::g_unscheduled_spins > sched::g_unscheduled_spin_budget) {
+		sched::g_unscheduled_spins = 0;
+		verif::PanicStop p; snprintf(p.msg, sizeof p.msg, "verif: wait loop at %s did not terminate after %llu iterations in a single-threaded run (nobody else can change what it waits for)", site, (unsigned long long)sched::g_unscheduled_spin_budget);
+		throw p;
+	}
 }
 #endif
